@@ -178,6 +178,7 @@ def listedOps : List Footprint := [
   ⟨"glyphnames", ["result slice", "used map"], []⟩,
   ⟨"glyphname", [], []⟩,
   ⟨"pdfmetrics", [], []⟩,
+  ⟨"subsetreuse", ["worker's own glyph buffer (re-used between calls)", "the subset fonts"], []⟩,
   ⟨"fontinfo", ["type1.FontInfo struct", "compiled regexp in PostScriptName"], []⟩,
   ⟨"ascffwrite", ["cff.Font struct", "cffStrings (data, rev map)", "charstring encoder state", "section buffers"], []⟩,
   ⟨"layout", ["Layouter", "two gtab.Context (seq, stack, keep)", "glyph.Info buffer"], []⟩,
